@@ -36,6 +36,10 @@ CHECKS.update({
  "C18": ("exploration", "Each imported / exported function of generated modules is replaced through the edit API with a traced marker body; validity, import list, exports and execution are checked against an expected-behaviour model executed on the input in the reference interpreter.", "interpreter fidelity as for C01; expected model = input with the import bound to an equivalent host function / the first export answered by the model", "runtime monitoring: differential execution against an expected-behaviour model", "6 C18"),
 })
 
+CHECKS.update({
+ "C09": ("exploration", "Serial build vs parallel build byte-for-byte and decision-for-decision over 30 thread-count/delay configurations per input, with schedule perturbation through off-by-default hooks and the observed completion orders reported; thorough adds ThreadSanitizer and Miri over the rayon paths. Sampling of schedules, not enumeration.", "schedules sampled (thread counts 1..16, injected delays, Miri seeds); TSan/Miri cover only paths the workload reaches", "runtime monitoring: differential serial/parallel execution under injected delays + race detectors (TSan, Miri)", "6 C09"),
+})
+
 NOT_YET = {}
 
 def main():
